@@ -115,6 +115,11 @@ Definition IndexApart (w : world) (P : id -> Prop) (b : N) : Prop :=
   forall m x, m <> b -> nth_opt (w_models w) (N.to_nat m) = Some x ->
     (forall p j, In (p, j) (m_idents x) -> ~ P j) /\ (forall p l j, In (p, l) (m_origins x) -> In j l -> ~ P j).
 
+(* the file list of model b names existing files, and every file that says it belongs to b is on the list *)
+Definition FilesListed (w : world) (b : N) (xb : model) : Prop :=
+  (forall f, In f (m_files xb) -> exists fl, nth_opt (w_files w) (N.to_nat f) = Some fl) /\
+  (forall f fl, nth_opt (w_files w) (N.to_nat f) = Some fl -> f_model fl = b -> In f (m_files xb)).
+
 Lemma in_elems_c c l : In c (elems l) <-> In (CElem c) l.
 Proof.
   induction l as [|[x|d] l IH]; cbn; [tauto| |].
@@ -148,13 +153,13 @@ Qed.
 Theorem Sealed_of_TreeInv w b xb :
   TreeInv w -> nth_opt (w_models w) (N.to_nat b) = Some xb ->
   IndexApart w (Sub w (m_root xb)) b ->
-  (forall f, In f (m_files xb) -> exists fl, nth_opt (w_files w) (N.to_nat f) = Some fl) ->
+  FilesListed w b xb ->
   Sealed (Sub w (m_root xb)) (fun m => m = b) (fun f => In f (m_files xb)) w.
 Proof.
   intros (C & (Hf & HR)) Hb HI HF. destruct (root_of_model w b xb C Hb) as (Hroots & rn & Hrn & Hrp).
   assert (Hnotkid : forall p, ~ lists w p (m_root xb)).
   { intros p Hl. destruct (c_up w C _ _ Hl) as (n & Hn & Hp). congruence. }
-  split; [|split; [|split; [|split; [|exact HF]]]].
+  split; [|split; [|split; [|split; [|split; [exact (proj1 HF)|intros f fl Hn Hfl E; exact (Hn (proj2 HF f fl Hfl E))]]]]].
   - intros i Hi. apply (c_alloc w C). eapply Sub_alloc; eauto. exists rn. exact Hrn.
   - intros i n Hi Hn. split; [|split].
     + intros c Hc HS. assert (Hl : lists w i c). { exists n. split; [exact Hn|]. apply in_elems_c. exact Hc. }
@@ -193,7 +198,7 @@ Qed.
 Theorem independent_all o w r w' b xb :
   TreeInv w -> nth_opt (w_models w) (N.to_nat b) = Some xb ->
   IndexApart w (Sub w (m_root xb)) b ->
-  (forall f, In f (m_files xb) -> exists fl, nth_opt (w_files w) (N.to_nat f) = Some fl) ->
+  FilesListed w b xb ->
   (forall i, In i (op_handles o) -> ~ Sub w (m_root xb) i) -> (forall m, In m (op_models o) -> m <> b) ->
   run o w = Val (r, w') ->
   nth_opt (w_models w') (N.to_nat b) = Some xb /\
@@ -213,7 +218,7 @@ Qed.
 Theorem independent_histories l w w' b xb :
   TreeInv w -> nth_opt (w_models w) (N.to_nat b) = Some xb ->
   IndexApart w (Sub w (m_root xb)) b ->
-  (forall f, In f (m_files xb) -> exists fl, nth_opt (w_files w) (N.to_nat f) = Some fl) ->
+  FilesListed w b xb ->
   Forall (op_apart (Sub w (m_root xb)) (fun m => m = b)) l ->
   run_ops l w = Val w' ->
   nth_opt (w_models w') (N.to_nat b) = Some xb /\
